@@ -525,7 +525,9 @@ func (m *Machine) completeWaiter(w *waiter, r *waitReg, v value, ok bool) {
 	w.ok = ok
 	// drop the other registrations
 	for i := range w.regs {
-		delete(w.regs[i].ch.owner, &w.regs[i])
+		if w.regs[i].ch != nil {
+			delete(w.regs[i].ch.owner, &w.regs[i])
+		}
 	}
 	// hb: the completing thread's clock flows to the waiter
 	if s := m.sched; s != nil && s.cur != nil {
